@@ -1,0 +1,76 @@
+//! Plain-data snapshot of `ServerBehaviour` and `ServerConnectionHandler` (`--cfg beetswap_verif`).
+
+use blockstore::Blockstore;
+use cid::CidGeneric;
+use libp2p_identity::PeerId;
+
+use super::{ServerBehaviour, ServerConnectionHandler, SinkState};
+
+/// `server::MAX_WANTLIST_ENTRIES_PER_PEER`
+pub const MAX_WANTLIST_ENTRIES_PER_PEER: usize = super::MAX_WANTLIST_ENTRIES_PER_PEER;
+
+#[derive(Debug, Clone, PartialEq)]
+pub struct Snapshot<const S: usize> {
+    pub peers_wantlists: Vec<(PeerId, Vec<CidGeneric<S>>)>,
+    pub peers_waiting_for_cid: Vec<(CidGeneric<S>, Vec<PeerId>)>,
+    pub outgoing_queue: Vec<(CidGeneric<S>, Vec<u8>)>,
+    pub outgoing_event_queue_len: usize,
+    pub tasks_len: usize,
+}
+
+pub(crate) fn snapshot<const S: usize, B>(s: &ServerBehaviour<S, B>) -> Snapshot<S>
+where
+    B: Blockstore + 'static,
+{
+    let mut peers_wantlists: Vec<_> = s
+        .peers_wantlists
+        .iter()
+        .map(|(peer, wl)| {
+            let mut cids: Vec<_> = wl.0.iter().copied().collect();
+            cids.sort_by_key(|c| c.to_bytes());
+            (*peer, cids)
+        })
+        .collect();
+    peers_wantlists.sort_by_key(|(p, _)| p.to_bytes());
+
+    let mut peers_waiting_for_cid: Vec<_> = s
+        .peers_waiting_for_cid
+        .iter()
+        .map(|(cid, peers)| {
+            let mut peers: Vec<_> = peers.iter().map(|p| **p).collect();
+            peers.sort_by_key(|p| p.to_bytes());
+            (*cid, peers)
+        })
+        .collect();
+    peers_waiting_for_cid.sort_by_key(|(c, _)| c.to_bytes());
+
+    Snapshot {
+        peers_wantlists,
+        peers_waiting_for_cid,
+        outgoing_queue: s.outgoing_queue.iter().cloned().collect(),
+        outgoing_event_queue_len: s.outgoing_event_queue.len(),
+        tasks_len: s.tasks.len(),
+    }
+}
+
+#[derive(Debug, Clone, PartialEq)]
+pub struct HandlerSnapshot {
+    /// 0 = None, 1 = Requested, 2 = Ready
+    pub sink_state: u8,
+    /// `(prefix.len(), data.len())` of each pending block, `None` if nothing is pending
+    pub pending: Option<Vec<(usize, usize)>>,
+}
+
+pub(crate) fn handler_snapshot<const S: usize>(h: &ServerConnectionHandler<S>) -> HandlerSnapshot {
+    HandlerSnapshot {
+        sink_state: match h.sink {
+            SinkState::None => 0,
+            SinkState::Requested => 1,
+            SinkState::Ready(_) => 2,
+        },
+        pending: h
+            .pending_outgoing_messages
+            .as_ref()
+            .map(|v| v.iter().map(|b| (b.prefix.len(), b.data.len())).collect()),
+    }
+}
